@@ -59,6 +59,7 @@ struct rthr {
 	struct iv_event_raw td_raw;
 	int		td_registered, td_requested;
 	int		in_wait_cb;	/* inside a callback that may run the child reaper */
+	long		steps_at_progress;	/* simulator steps of this thread at its last visible progress */
 	int		ext_live;	/* model count of library-internal loop references (pools, threads, ...) */
 };
 
@@ -90,6 +91,7 @@ extern long OPS[OP_MAX];
  * calling thread's next call at the site and disarmed again if that call never happened */
 int reg_fault_arm(int id, int want, int site, int err);
 void reg_fault_disarm(int site);
+void note_progress(struct rthr *th);
 void hb_release(void *a);
 void hb_acquire(void *a);
 void viol(const char *id, const char *fmt, ...) __attribute__((format(printf, 2, 3)));
